@@ -19,6 +19,7 @@ import Hm.C03Grammar
 import Hm.C04Grammar
 import Hm.C03Whole
 import Hm.HeaderWf
+import Hm.PinnedWitnesses
 #print axioms C01_request_delivery_independent
 #print axioms C02_response_delivery_independent
 #print axioms C03_accept_sound
@@ -33,10 +34,15 @@ import Hm.HeaderWf
 #print axioms C04_prefix_never_rejected
 #print axioms C04_status_line_sound
 #print axioms C05_chunk_delivery_independent
+#print axioms C05_pinned_bare_cr
 #print axioms C05_roundtrip
 #print axioms C05_roundtrip_parse
+#print axioms C06_pinned_request_traps_checked
+#print axioms C06_pinned_request_traps_unchecked
+#print axioms C06_pinned_response_traps
 #print axioms C06_request_no_crash
 #print axioms C06_response_no_crash
+#print axioms C07_request_reserve_bounded
 #print axioms C08_accept_within_max
 #print axioms C08_header_line_exact
 #print axioms C08_header_line_none
@@ -52,8 +58,11 @@ import Hm.HeaderWf
 #print axioms C12_content_length
 #print axioms C12_no_trailer
 #print axioms C12_others
+#print axioms C12_pinned_join_blank
+#print axioms C12_pinned_trailer_content_length
 #print axioms C12_transfer_encoding
 #print axioms C13_inflate_stored
+#print axioms C13_pinned_zlib_header_rejected
 #print axioms C13_stack
 #print axioms C14_content_encoding
 #print axioms C14_content_length
@@ -69,6 +78,8 @@ import Hm.HeaderWf
 #print axioms C16_some_only_if_text
 #print axioms C16_utf8_exact
 #print axioms C17_chunk_size
+#print axioms C17_pinned_chunk_plus
+#print axioms C17_pinned_plus_accepted
 #print axioms C17_request_content_length
 #print axioms C17_status_code
 #print axioms C18_decode_case
